@@ -526,4 +526,31 @@ ImgDesc(fs, img) ==
          zeros == IF img[j].tail = "zero" THEN nxt ELSE 0
      IN <<L[j].ck, keep + extra, zeros, img[j].tail, SumSz(SubSeq(L[j].recs, 1, L[j].dur)), SumSz(L[j].recs)>>]
 
+
+-----------------------------------------------------------------------------
+(* crash DURING recovery: the file system after the first k file-modifying   *)
+(* calls of a recovery (ftruncate / unlink / creat / write of the new head)   *)
+(* have taken place.  `st` is the state the recovery had replayed (the head   *)
+(* record it writes).                                                         *)
+
+Modifying(e) == e.e = "fs" /\ e.call \in {"ftruncate", "unlink", "creat", "write"} /\ e.ck >= 0
+
+ApplyFsEvent(fs, e, st) ==
+  CASE e.call = "ftruncate" ->
+         LET j == FsIdx(fs, e.ck) IN [fs EXCEPT ![j].tail = "none", ![j].dur = Len(fs[j].recs)]
+    [] e.call = "unlink" -> LET j == FsIdx(fs, e.ck) IN [fs EXCEPT ![j].linked = FALSE]
+    [] e.call = "creat" -> FsInsert(fs, [ck |-> e.ck, recs |-> <<>>, dur |-> 0, linked |-> TRUE, tail |-> "none"])
+    [] e.call = "write" -> LET j == FsIdx(fs, e.ck) IN [fs EXCEPT ![j].recs = <<Sized([k |-> "state", st |-> st])>>]
+    [] OTHER -> fs
+
+RECURSIVE ApplyFsEvents(_, _, _, _)
+ApplyFsEvents(fs, evs, k, st) ==
+  IF k = 0 \/ evs = <<>> THEN fs ELSE ApplyFsEvents(ApplyFsEvent(fs, evs[1], st), Tail(evs), k - 1, st)
+
+\* all events of a recovery up to and including its k-th modifying call (what was observable before the crash)
+RECURSIVE EventsUpTo(_, _)
+EventsUpTo(evs, k) ==
+  IF k = 0 \/ evs = <<>> THEN <<>>
+  ELSE IF Modifying(evs[1]) THEN <<evs[1]>> \o EventsUpTo(Tail(evs), k - 1)
+       ELSE <<evs[1]>> \o EventsUpTo(Tail(evs), k)
 =============================================================================
